@@ -177,11 +177,22 @@ func comparePreRelease(pr1, pr2 []string) int {
 	return 0
 }
 
+// parseNumericIdentifier parses an identifier that consists of digits only
+func parseNumericIdentifier(id string) (int, error) {
+	for i := 0; i < len(id); i++ {
+		if id[i] < '0' || id[i] > '9' {
+			return 0, fmt.Errorf("not a numeric identifier: %s", id)
+		}
+	}
+	return strconv.Atoi(id)
+}
+
 // comparePreReleaseIdentifier compares individual pre-release identifiers
 func comparePreReleaseIdentifier(id1, id2 string) int {
-	// Try to parse as integers first
-	num1, err1 := strconv.Atoi(id1)
-	num2, err2 := strconv.Atoi(id2)
+	// Try to parse as integers first. Only identifiers made of digits alone are
+	// numeric; "-5" is an alphanumeric identifier (a leading hyphen is not a sign).
+	num1, err1 := parseNumericIdentifier(id1)
+	num2, err2 := parseNumericIdentifier(id2)
 
 	if err1 == nil && err2 == nil {
 		// Both are numbers, compare numerically
